@@ -1,12 +1,13 @@
 #!/bin/sh
-# usage: rerun_all.sh [seed-id-prefix]
-# Applies every stored seeded change to /repo's working tree in turn, runs the quick check of the property it
-# breaks, restores the tree.  Prints one line per change; exit 1 if any change is no longer caught.
+# usage: rerun_all.sh [seed-id-prefix] [skip-first-N]
+# Applies every stored seeded change to /repo's working tree in turn, runs the quick check recorded as catching it
+# (meta.json caught_by[0]), restores the tree.  Prints one line per change; exit 1 if any change is no longer caught.
 # /repo must be clean and no other check may be running (the checks rebuild from the working tree).
-miss=0
+miss=0; n=0
 for d in /verif/seeded/${1}*/; do
+  n=$((n+1)); [ $n -le ${2:-0} ] && continue
   id=$(basename $d)
-  prop=$(/usr/bin/python3 -c "import json;print(json.load(open('$d/meta.json'))['breaks_property'])")
+  prop=$(/usr/bin/python3 -c "import json;print(json.load(open('$d/meta.json'))['caught_by'][0])")
   r=$(sh /verif/selftest/try_patch.sh $d/patch.diff $prop 2>&1 | grep -E "^(CAUGHT|MISSED|/repo has|patch does not)" | head -1)
   echo "$id: $r"
   case "$r" in CAUGHT*) ;; *) miss=$((miss+1));; esac
